@@ -33,7 +33,7 @@ func init() {
 			"Chains containing DCTDecode run inside a testing/synctest bubble so that a helper goroutine left behind is detected exactly. non-trivial = body non-empty and at least one filter; distinct = hash of (chain, parameter shape, body length, corruption kinds, path, consumer).",
 		Assumptions: []string{
 			"the source never fails here (I/O failures are C19); every error must therefore be classified as malformed input",
-			"time is simulated: one tick per function entry and loop iteration inside internal/filter/** (counter inserted by a build overlay, no hook in /repo); bound = K*(StreamBudget(rawLen) + bytes produced), K = 24 DCT, 512 JBIG2, 64 others, calibrated on the unchanged tree; applied only when no stage before the last one can expand; the wall-clock watchdog remains as a backstop",
+			"time is simulated: one tick per function entry and loop iteration inside internal/filter/** (counter inserted by a build overlay, no hook in /repo); bound = K*(StreamBudget(rawLen) + bytes produced) with K = 24 for DCT and 512 for JBIG2 (decoders that hold an image they may traverse a bounded number of times), 256*(bytes in + bytes out) + 64Mi for the byte-oriented decoders, calibrated on the unchanged tree; applied only when no stage before the last one can expand; the wall-clock watchdog remains as a backstop",
 			"allocation is bounded by a measured proxy: runtime.MemStats.TotalAlloc delta <= 12*budget + 16*bytes drained + 32 MiB, budget = StreamBudget(rawLen) or the larger budget handed to Filter.Decode directly (TotalAlloc is cumulative: a buffer grown by appending up to the budget alone accounts for about five times the budget) (the per-stream budget limits live working memory, which cannot be observed directly); a process that exceeds RLIMIT_AS dies and is reported as a crash",
 			"output: chained Flate/LZW/RunLength stages multiply their expansion, so no input-proportional output bound exists; draining stops at 24 MiB per run. A lone CCITTFax stream must stay below MaxImagePixels/8 + 1 MiB (its geometry cap); the DCT and JBIG2 geometry caps (up to 2 GiB) are too large to drain per run and are covered only through the allocation proxy",
 		},
@@ -499,7 +499,7 @@ func decodeAndCheck(e *core.Env, g *getter, dict pdf.Dict, body, globals []byte,
 			e.Probe("work bound evaluated")
 			e.ProbeN("simulated time spent in decoders (thousands of work ticks)", int(ticks/1000))
 			calib(ticks, in, int64(drained), budgetBytes, names, closeAt >= 0, drained > 24<<20)
-			bound := workBound(names[len(names)-1], budgetBytes, int64(drained))
+			bound := workBound(names[len(names)-1], budgetBytes, in, int64(drained))
 			switch {
 			case ticks > bound/2:
 				e.Probe("work above 50% of the bound (" + string(names[len(names)-1]) + ")")
@@ -726,7 +726,7 @@ var corners = map[string]func(e *core.Env){
 				}
 				done <- n
 			}()
-			bound := workBound("JBIG2Decode", 8<<20+1024*int64(len(body)), 512)
+			bound := workBound("JBIG2Decode", 8<<20+1024*int64(len(body)), int64(len(body)), 512)
 			for {
 				select {
 				case <-done:
@@ -818,15 +818,19 @@ var corners = map[string]func(e *core.Env){
 // What the bound excludes is work that keeps growing without matching input or
 // output: one more pass over the image per 12-byte scan, one loop iteration per
 // unit of a 32-bit header field, and the like.
-func workBound(last pdf.Name, budget, out int64) int64 {
-	k := int64(64)
+func workBound(last pdf.Name, budget, in, out int64) int64 {
 	switch last {
 	case "DCTDecode":
-		k = 24
+		return 24 * (budget + out)
 	case "JBIG2Decode":
-		k = 512
+		return 512 * (budget + out)
 	}
-	return k * (budget + out)
+	// Byte-oriented decoders (Flate, LZW, RunLength, ASCII85, ASCIIHex,
+	// CCITTFax) hold no image in memory that they could traverse repeatedly:
+	// their work is bounded by what goes in and what comes out.  The largest
+	// ratio seen on the unchanged tree is 33 ticks per byte (CCITTFax); the
+	// constant covers tables and the per-row set-up at the widest geometry.
+	return 256*(in+out) + 64<<20
 }
 
 // effectiveNames returns the filter chain that the dictionary really asks for
